@@ -112,11 +112,11 @@ def dMag (b : Nat) : Nat := b % 2 ^ 63
 /-- an integer that orders the non-NaN doubles as their values do (-0.0 and +0.0 both 0) -/
 def dKey (b : Nat) : Int := if dSign b = 0 then (dMag b : Int) else -(dMag b : Int)
 
-/-- `double r = a - b; return r == 0 ? 0 : (r < 0.0 ? -1 : 1);` -/
+/-- the double arms: `a == b ? 0 : (a < b ? -1 : 1)` for float64 x float64 and half x half, and `r = a - b; r == 0 ? 0 : (r < 0.0 ? -1 : 1)`
+    for the arms where one operand is a converted integer (always finite, so the difference is never inf - inf) -/
 def subSign (a b : Nat) : Int :=
-  if isNaN a || isNaN b then 1                               -- r is NaN: `r == 0` and `r < 0.0` are both false
-  else if isInf a && isInf b && dSign a == dSign b then 1    -- inf - inf of equal sign is NaN
-  else if dKey a = dKey b then 0
+  if isNaN a || isNaN b then 1                               -- neither `==` nor `<` holds with a NaN operand
+  else if dKey a = dKey b then 0                             -- (D88, fixed: equal infinities used to give 1, inf - inf being NaN)
   else if dKey a < dKey b then -1 else 1
 
 /-- largest k ≤ start with 2^k ≤ n (0 if none) -/
